@@ -391,7 +391,7 @@ def container_ops(self_move=False, node_forms=True):
     nopatch = st.integers(0, len(POOL) - 1).flatmap(lambda i: st.tuples(
         st.just("nopatch"), ctgt, st.just(i), G.model_recipe(pool_class(i)[3], 1, dates="date", objects=False),
         st.sampled_from(["attach", "attach", "attach", "detach", "set", "setattr"])))
-    bnd = st.one_of(bnd, bnd, bnd, nopatch, nopatch, st.just(("detach_all",)), st.tuples(st.just("del_root"), cref),
+    bnd = st.one_of(bnd, bnd, bnd, nopatch, nopatch, st.just(("detach_all",)), st.just(("visit_detach",)), st.tuples(st.just("del_root"), cref),
                     st.tuples(st.just("copy_root"), fresh, st.booleans()), st.just(("flush",)), st.tuples(st.just("move_root"), cref, fresh),
                     st.integers(0, len(POOL) - 1).flatmap(lambda i: st.tuples(
                         st.just("stale"), ctgt, st.just(i), G.model_recipe(pool_class(i)[3], 1, dates="date", objects=False))),
@@ -823,6 +823,21 @@ class CSession:
                         self.after_step(self, ["detach"])
             self.classes.add("all_metadata_removed")
             self.classes.add("last_object_of_schema_removed")
+        elif kind == "visit_detach":
+            # the walk over all nodes as the place where metadata is removed (callback of visititems)
+            if not any(p != "/" for p in self.model.meta):
+                return
+
+            def cb(name, node):
+                for key in list(node.meta.keys()):
+                    del node.meta[key]
+
+            def fm(model):
+                for path in [p for p in model.meta if p != "/"]:
+                    del model.meta[path]
+
+            self.run_all(lambda ti, t: t.mc.visititems(cb), fm, "visit_detach", "/")
+            self.classes.add("metadata_removed_inside_visititems")
         elif kind == "nopatch":
             # IH5 drivers only: between commit_patch() and create_patch() nothing is writable; a mutating call in
             # that window is refused, the caller carries on with a new patch (failed operation, state unchanged)
